@@ -39,11 +39,11 @@ ASSUMPTIONS = ['a damaged message must be skipped only when R\'s independent rea
                'payloads of damaged messages contain no start signature (phantoms from re-scanning inside a damaged message are outside the statement)']
 BUDGET = {'quick': 50, 'thorough': 600}
 POOL = {'quick': 160, 'thorough': 960}
-REQUIRED = {'quick': {'evaluations': 3000, 'prefixes_tried': 5000, 'suffix_checks': 100, 'damaged_streams_full': 300,
+REQUIRED = {'quick': {'evaluations': 3000, 'prefixes_tried': 5000, 'prefixes_tried_info_only': 4500, 'suffix_checks': 100, 'damaged_streams_full': 300,
                       'damaged_streams_info': 300, 'faults_stop_signature': 60, 'faults_descriptor': 60,
                       'faults_section_length': 100, 'no_continue_checks': 150, 'cli_checks': 10,
                       'detectable_damaged_messages': 300},
-            'thorough': {'evaluations': 42000, 'prefixes_tried': 49000, 'suffix_checks': 1900, 'damaged_streams_full': 6000,
+            'thorough': {'evaluations': 42000, 'prefixes_tried': 49000, 'prefixes_tried_info_only': 44000, 'suffix_checks': 1900, 'damaged_streams_full': 6000,
                       'damaged_streams_info': 6000, 'faults_stop_signature': 1000, 'faults_descriptor': 1000,
                       'faults_section_length': 2000, 'no_continue_checks': 3000, 'cli_checks': 100,
                       'detectable_damaged_messages': 6000}}
@@ -72,7 +72,9 @@ def all_faults(b):
         if pos > 0 and ids[pos - 1] // 1000 == 206:
             continue
         for seq in (False, True):
-            out.append(('descriptor', ('sequence' if seq else 'element') + '@%d' % pos, streams.fault_descriptor(b, pos, seq)))
+            # (which undefined descriptor: 0-63-255 / 0-00-000 / 0-60-200 resp. 3-63-255 / 3-00-000 / 3-60-200 by position)
+            out.append(('descriptor', ('sequence' if seq else 'element') + '@%d/v%d' % (pos, pos % 3),
+                        streams.fault_descriptor(b, pos, seq, pos % 3)))
     for sec in (1, 2, 3, 4):
         for delta in (-2, -1, 1, 2, 4, 5, 8):      # (+4 and more: the section swallows the end section and what follows)
             d = streams.fault_section_length(b, sec, delta)
@@ -113,6 +115,28 @@ def prefix_check(ctx, dec, msg):
                     dict(hex=b.hex(), cut=i, ids=msg.ids))
         return
     ctx.evaluated(('prefix', b.hex()), True, sample=dict(kind='all-prefixes', length=len(b), ids=msg.ids))
+    # the same prefixes read with info_only=True: that mode reads sections 0-3 and moves over the data section by its
+    # declared length, so every prefix that ends before the declared end of section 4 lacks bytes the decoder has to
+    # move over and is refused too (a cut inside the stop signature is in a part this mode never reads: not judged, 9.2)
+    try:
+        end4 = max(st + ln for idx, st, ln in streams.section_offsets(b) if idx == 4)
+    except Exception:
+        return
+    for i in range(min(end4, len(b))):
+        ctx.count('prefixes_tried_info_only')
+        try:
+            dec.process(b[:i], info_only=True)
+        except Exception as e:
+            ctx.add('prefix_exceptions_info_only', type(e).__name__)
+            continue
+        sec = 'sec?'
+        for idx, st, ln in streams.section_offsets(b):
+            if st <= i:
+                sec = 'sec%d' % idx
+        ctx.violate('prefix-decodes/info-only/%s' % sec, 'the first %d of %d bytes decode successfully with info_only=True '
+                    '(section 4 is declared to end at octet %d)' % (i, len(b), end4), dict(hex=b.hex(), cut=i, ids=msg.ids, info_only=True))
+        return
+    ctx.evaluated(('prefix-info', b.hex()), True)
 
 
 def digest(m):
